@@ -109,6 +109,8 @@ EndGuards ==
   \* what is handed back belongs together: residuals = W(Y - Phi(alpha) C) for the returned alpha and C,
   \* objective = |residuals|^2 / 2 (recomputed by the harness from its own model; digested into a boolean)
   /\ G({"C04", "C02"}, ~faultSeen => Ev.coherent)
+  \* ... and with "the residuals are literally zero" only when they are
+  /\ G({"C04"}, Ev.term = "ResidualsZero" => Ev.rzero)
   /\ G({"C09"}, seenNone => (~Ev.ok /\ Ev.term = "User"))
   \* truthfulness of the failure report: the optimizer gives up with "User" only after it has
   \* really been handed an absent value
